@@ -484,7 +484,7 @@ def run_history(h, mode='full', obs_list=None, do_restore=True):
         res['n_obs'] += 1
         want = BASE[base_key(o, rname)]
         if got != want:
-            res['obs'].append((o, got))
+            res['obs'].append((o, short(got)))
     return res
 
 
@@ -550,57 +550,112 @@ def short(s, n=240):
 
 
 def process_history(job):
+    """Returns (stats, inv_failures, obs_failures) with failures as light tuples
+    (contract, class, history, observation|None, observed, extra)."""
     h, mode = job
-    out = {'evaluations': 1, 'contract_evaluations': 0, 'nontrivial': 0, 'failures': [], 'faults': (0, 0),
-           'unconfirmed': 0}
+    stats = {'evaluations': 1, 'contract_evaluations': 0, 'nontrivial': 0, 'faults': (0, 0), 'unconfirmed': 0}
+    inv, obsf = [], []
     st, res = in_child(run_history, h, mode)
     if st != 'ok':
-        out['failures'].append({'key': 'noraise|%r' % (h,), 'contract': 'noraise', 'input': {'history': h},
-                                'observed': res, 'expected': 'the harness completes', 'replay': replay(h, None)})
-        return out
-    out['contract_evaluations'] = res['n_obs'] + res['n_inv']
-    out['faults'] = res['faults']
-    out['nontrivial'] = 1 if any(op[0] in 'RMPFN' for op in h) else 0
+        inv.append(('noraise', None, h, None, res, None))
+        return stats, inv, obsf
+    stats['contract_evaluations'] = res['n_obs'] + res['n_inv']
+    stats['faults'] = res['faults']
+    stats['nontrivial'] = 1 if any(op[0] in 'RMPFN' for op in h) else 0
     for (i, name, observed) in res['inv']:
         prefix = h[:i + 1]
-        f = {'key': 'idle-state:%s|%r' % (name, prefix), 'contract': 'idle-state:' + name,
-             'input': {'history': prefix}, 'observed': observed, 'expected': 'default value',
-             'replay': replay(prefix, None)}
-        c = classify_inv(name, prefix)
-        if c:
-            f['class'] = c
-        out['failures'].append(f)
+        inv.append(('idle-state:' + name, classify_inv(name, prefix), prefix, None, observed, None))
     if res['obs']:
         # confirm by exact replay of h + [first failing observation], without the restore step
         o0, got0 = res['obs'][0]
         st2, res2 = in_child(run_history, h, mode, [o0], False)
         confirmed = st2 == 'ok' and res2['obs'] and res2['obs'][0][1] == got0
-        hist_for = {}
+        cls = classify_obs(h, res['dev'])
+        rname = ctx_renderer(h)
         if confirmed:
             for o, got in res['obs']:
-                hist_for[o] = (h, got)
+                obsf.append(('history-independence', cls, h, o, got, res['dev']))
         else:
             # replay the chain that was really executed (no restore): report what reproduces there
-            obs_all = idle_observations(mode, h) if valid(h) and not in_ctx(h) else [('R', d) for d in PNAMES]
+            obs_all = idle_observations(mode, h) if rname is None else [('R', d) for d in PNAMES]
             st3, res3 = in_child(run_history, h, mode, obs_all, False)
+            n = 0
             if st3 == 'ok':
                 for o, got in res3['obs']:
                     k = obs_all.index(o)
-                    hist_for[o] = (tuple(h) + tuple(obs_all[:k]), got)
-            out['unconfirmed'] = len(res['obs']) - len(hist_for) if len(res['obs']) > len(hist_for) else 0
-        cls = classify_obs(h, res['dev'])
-        rname = ctx_renderer(h)
-        for o, (hh, got) in hist_for.items():
-            f = {'key': 'history-independence|%r' % ((tuple(hh), o),), 'contract': 'history-independence',
-                 'input': {'history': list(hh), 'observation': o},
-                 'observed': short(got), 'expected': short(BASE[base_key(o, rname)]),
-                 'state_left_by_history': res['dev'], 'replay': replay(hh, o)}
-            if cls and hh == h:
-                f['class'] = cls
-            elif hh != h and rname == 'LaTeX':
-                f['class'] = 'latex-packages-accumulate-on-instance'
-            out['failures'].append(f)
-    return out
+                    hh = tuple(h) + tuple(obs_all[:k])
+                    c2 = 'latex-packages-accumulate-on-instance' if rname == 'LaTeX' else None
+                    obsf.append(('history-independence', c2, hh, o, got, res['dev']))
+                    n += 1
+            stats['unconfirmed'] = max(0, len(res['obs']) - n)
+    return stats, inv, obsf
+
+
+def fail_sortkey(t):
+    return (len(t[2]) + (1 if t[3] is not None else 0), repr((t[2], t[3])))
+
+
+def smallest(fails, per_class=40, overall=400):
+    """The `overall` smallest failures plus the `per_class` smallest of every (contract, class)."""
+    by_len = {}
+    for t in fails:
+        by_len.setdefault((len(t[2]) + (1 if t[3] is not None else 0)), []).append(t)
+    picked = []
+    for n in sorted(by_len):
+        if len(picked) >= overall:
+            break
+        picked.extend(sorted(by_len[n], key=fail_sortkey)[:overall - len(picked)])
+    groups = {}
+    for t in fails:
+        groups.setdefault((t[0], t[1]), []).append(t)
+    for g in groups.values():
+        m = min(len(x[2]) for x in g)
+        cand = [x for x in g if len(x[2]) <= m + 1]
+        picked.extend(sorted(cand, key=fail_sortkey)[:per_class])
+    uniq = {}
+    for t in picked:
+        uniq.setdefault((t[0], t[2], t[3]), t)
+    return list(uniq.values())
+
+
+def process_chunk(jobs):
+    agg = {'evaluations': 0, 'contract_evaluations': 0, 'distinct_nontrivial': 0,
+           'faults': [0, 0], 'unconfirmed': 0, 'inv': [], 'obs_small': [], 'obs_counts': {}}
+    obs_all = []
+    for job in jobs:
+        stats, inv, obsf = process_history(job)
+        agg['evaluations'] += stats['evaluations']
+        agg['contract_evaluations'] += stats['contract_evaluations']
+        agg['distinct_nontrivial'] += stats['nontrivial']
+        agg['faults'][0] += stats['faults'][0]
+        agg['faults'][1] += stats['faults'][1]
+        agg['unconfirmed'] += stats['unconfirmed']
+        agg['inv'].extend(inv)
+        for t in obsf:
+            k = (t[0], t[1])
+            agg['obs_counts'][k] = agg['obs_counts'].get(k, 0) + 1
+        obs_all.extend(obsf)
+        if len(obs_all) > 20000:
+            obs_all = smallest(obs_all)
+    agg['obs_small'] = smallest(obs_all)
+    return agg
+
+
+def to_failure(t):
+    contract, cls, h, o, observed, dev = t
+    rname = ctx_renderer(h)
+    if o is None:
+        f = {'key': '%s|%r' % (contract, h), 'contract': contract, 'input': {'history': list(h)},
+             'observed': observed, 'expected': 'default value' if contract != 'noraise' else 'harness completes',
+             'replay': replay(h, None)}
+    else:
+        f = {'key': '%s|%r' % (contract, (tuple(h), o)), 'contract': contract,
+             'input': {'history': list(h), 'observation': o},
+             'observed': short(observed), 'expected': short(BASE.get(base_key(o, rname), '?')),
+             'state_left_by_history': dev, 'replay': replay(h, o)}
+    if cls:
+        f['class'] = cls
+    return f
 
 
 def in_ctx(h):
@@ -636,21 +691,6 @@ def replay_cli(h, o):
     got = canon(apply_op(sess, o))
     want = baseline_one(base_key(o, ctx_renderer(h)))
     return {'log': log, 'observed': got, 'fresh': want, 'equal': got == want}
-
-
-def process_chunk(jobs):
-    agg = {'evaluations': 0, 'contract_evaluations': 0, 'distinct_nontrivial': 0, 'failures': [],
-           'faults': [0, 0], 'unconfirmed': 0}
-    for job in jobs:
-        r = process_history(job)
-        agg['evaluations'] += r['evaluations']
-        agg['contract_evaluations'] += r['contract_evaluations']
-        agg['distinct_nontrivial'] += r['nontrivial']
-        agg['failures'].extend(r['failures'])
-        agg['faults'][0] += r['faults'][0]
-        agg['faults'][1] += r['faults'][1]
-        agg['unconfirmed'] += r['unconfirmed']
-    return agg
 
 
 # ------------------------------------------------------------------------------------------------
@@ -755,62 +795,66 @@ def run(tier, seed, workers):
     base_exc = sorted(repr(k) for k, v in BASE.items() if v.startswith('["exc"'))
     n = 4 if quick else 6
     hs = enumerate_histories(Q_IDLE, Q_CTX, n)
-    jobs = [(h, 'full' if len(h) <= 2 else 'lite' if len(h) <= 4 else 'reduced') for h in hs]
+    lite_max, = (3,) if quick else (4,)
+
+    def mode_of(h):
+        return 'full' if len(h) <= 2 else 'lite' if len(h) <= lite_max else 'reduced'
+    jobs = [(h, mode_of(h)) for h in hs]
     n_exh = len(jobs)
     br = breadth_histories()
-    jobs += [(h, 'full') for h in br]
+    jobs += [(h, 'lite') for h in br]
     faults = all_faults()
-    n_rand = 1200 if quick else 20000
+    n_rand = 600 if quick else 20000
     rnd = [random_history(random.Random('c11-%d-%d' % (seed, i)), faults) for i in range(n_rand)]
-    jobs += [(h, 'full') for h in rnd]
-    # interleave so that chunks have similar cost
+    jobs += [(h, 'lite') for h in rnd]
+    # shuffle deterministically so that chunks have similar cost
     order = sorted(range(len(jobs)), key=lambda i: zlib.crc32(repr(jobs[i][0]).encode()))
     jobs = [jobs[i] for i in order]
     parts = pool_map(process_chunk, chunks(jobs, workers * 16), workers)
     out = {'evaluations': 0, 'distinct_nontrivial': 0, 'contract_evaluations': len(BASE)}
-    failures = []
     faults_n = [0, 0]
     unconfirmed = 0
+    inv = {}
+    obs_small = []
+    counts = {}
     for r in parts:
         out['evaluations'] += r['evaluations']
         out['distinct_nontrivial'] += r['distinct_nontrivial']
         out['contract_evaluations'] += r['contract_evaluations']
-        failures.extend(r['failures'])
         faults_n[0] += r['faults'][0]
         faults_n[1] += r['faults'][1]
         unconfirmed += r['unconfirmed']
-    uniq = {}
-    for f in failures:
-        uniq.setdefault(f['key'], f)
-
-    def sk(f):
-        hh = f['input']['history']
-        return (len(hh) + (1 if 'observation' in f['input'] else 0), repr(f['input']), f['key'])
-    failures = sorted(uniq.values(), key=sk)
-    by_class = {}
-    for f in failures:
-        c = f['contract'] + '/' + f.get('class', 'unclassified')
-        by_class[c] = by_class.get(c, 0) + 1
-    # keep the 400 smallest, but make sure every (contract, class) is represented
-    kept = failures[:400]
+        for t in r['inv']:
+            inv.setdefault((t[0], t[2]), t)
+        obs_small.extend(r['obs_small'])
+        for k, v in r['obs_counts'].items():
+            counts[k] = counts.get(k, 0) + v
+    for t in inv.values():
+        counts[(t[0], t[1])] = counts.get((t[0], t[1]), 0) + 1
+    total = sum(counts.values())
+    by_class = {'%s/%s' % (k[0], k[1] or 'unclassified'): v for k, v in sorted(counts.items(), key=repr)}
+    kept = smallest(list(inv.values()) + obs_small, per_class=25, overall=400 - 25 * len(counts))
+    kept = sorted(kept, key=fail_sortkey)[:400]
     out.update({
         'domain': ('HIST(%d): all %d properly bracketed, non-nested histories of length 0..%d over the reduced '
                    'alphabet idle=%r / in-context=%r (reduction: 4 of the 11 renderers can be entered -- one per '
                    'distinct way of changing the token lists: Html adds 2 tokens, Markdown removes Footnote and '
-                   'adds 4, LaTeX adds Math, XWiki20 adds 4 span/block tokens --, one composite document "mix" '
-                   'that exercises every scratch variable plus the quote/setext probe as in-history documents, '
-                   '5 of the %d fault placements -- one per known way of leaving state behind plus block '
-                   'start/interrupt --, one custom-span-list render); each history is followed by EVERY probe '
-                   'observation: idle -> bare-parse dump + markdown() with all 11 renderers for each of the %d '
-                   'probes (%d observations; for histories of length 3 and 4 PygmentsRenderer skips the two probes whose code '
-                   'blocks have no language, because guess_lexer dominates the cost%s), in context -> render of each probe with the entered renderer; '
+                   'adds 4, LaTeX adds Math, XWiki20 adds 4 --, the in-history documents are one composite '
+                   'document "mix" that exercises every scratch variable and the quote/setext probe, 5 of the %d '
+                   'fault placements -- one per distinct way of leaving state behind plus block start/interrupt '
+                   '--, one custom-span-list render); each history is followed by EVERY probe observation: idle '
+                   '-> for each of the %d probes a bare-parse dump + markdown() with each of the 11 renderers '
+                   '(%d observations) for histories of length <= 2; length 3%s: the same minus PygmentsRenderer '
+                   'on the 2 probes whose code blocks have no language (guess_lexer costs more than everything '
+                   'else together); length %s: bare-parse dump + Html + Markdown + one rotating renderer '
+                   '(up to %d observations); in context -> render of each probe with the entered renderer. '
                    'BREADTH: %d short histories covering the full alphabet once ([F] for every fault kind x raise '
                    'site x context x position of either token list (%d), [enter R, render d(, exit)] for all 11 '
                    'renderers x %d documents, [bare parse d], [custom-span-list render d]); RANDOM: %d seeded '
-                   'histories of length 5..41 over the full alphabet; fresh-interpreter baselines: %d subprocesses'
+                   'histories of length 5..41 over the full alphabet; fresh-interpreter baselines: %d '
+                   'subprocesses, one per observation'
                    % (n, n_exh, n, Q_IDLE, Q_CTX, len(faults), len(PNAMES), len(PNAMES) * (1 + len(RNAMES)),
-                      '' if quick else '; histories of length 5 and 6 use bare-parse + 3 renderers (Html, '
-                      'Markdown, one rotating) = up to %d observations' % (len(PNAMES) * 4),
+                      '' if quick else ' and 4', '4' if quick else '5 and 6', len(PNAMES) * 4,
                       len(br), len(faults), len(DNAMES), n_rand, len(BASE))),
         'rule': ('a case is one history run in its own forked child followed by all observations; it is '
                  'non-trivial if the history contains at least one parse/render/faulty-parse operation '
@@ -820,8 +864,8 @@ def run(tier, seed, workers):
         'baseline_outcomes_that_are_exceptions': base_exc,
         'unconfirmed_mismatches_dropped': unconfirmed,
         'samples': [list(hs[i]) for i in range(0, len(hs), max(1, len(hs) // 5))][:5] + [list(rnd[0])],
-        'failures_total': len(failures),
+        'failures_total': total,
         'failures_by_class': by_class,
-        'failures': kept,
+        'failures': [to_failure(t) for t in kept],
     })
     return out
